@@ -271,4 +271,714 @@ theorem applyMods_spec : ∀ (tf : List Deg) (D : Dict), (∀ d ∈ tf, EmitOk d
     · simp only [List.map_cons, mapE, hm, hms, bind_ok]
     · rw [hstep, happ]; simp
 
+theorem mem_extras (kd t : List Deg) (d : Deg) :
+    d ∈ extras kd t ↔ d ∈ t ∧ d.num ∉ kd.map (·.num) := by
+  unfold extras; simp
+
+/-- **mods_rebuild** (helper form): for a kind that is part of a duplicate-free target, the
+modifications the namer writes are accepted by the reader and rebuild the target: the reader's
+dict is the kind's entries followed by the target's extra entries, and as a set it is the target -/
+theorem mods_rebuild_aux (kd t : List Deg) (hkn : (kd.map (·.num)).Nodup)
+    (htn : (t.map (·.num)).Nodup) (hsub : ∀ d ∈ kd, d ∈ t) (hemit : ∀ d ∈ t, EmitOk d) :
+    ∃ mods ms, degreesToMods kd t = .ok mods ∧ mapE parseMod mods = .ok ms ∧
+      applyMods (dictOf kd) ms = .ok (kd.map pair ++ (extras kd t).map pair) ∧
+      ∀ e, e ∈ kd.map pair ++ (extras kd t).map pair ↔ ∃ d ∈ t, e = pair d := by
+  have hex_sub : ∀ d ∈ extras kd t, d ∈ t := fun d hd => ((mem_extras kd t d).mp hd).1
+  have hexn : ((extras kd t).map (·.num)).Nodup :=
+    List.Nodup.sublist (List.Sublist.map _ List.filter_sublist) htn
+  obtain ⟨ms, hms, happ⟩ := applyMods_spec (extras kd t) (kd.map pair)
+    (fun d hd => hemit d (hex_sub d hd)) hexn
+    (fun d hd => dget_map_pair_none kd d.num ((mem_extras kd t d).mp hd).2)
+  refine ⟨_, ms, degreesToMods_spec kd t hkn htn hsub, hms, ?_, ?_⟩
+  · rw [dictOf_nodup kd hkn]; exact happ
+  · intro e
+    simp only [List.mem_append, List.mem_map]
+    constructor
+    · rintro (⟨d, hd, rfl⟩ | ⟨d, hd, rfl⟩)
+      · exact ⟨d, hsub d hd, rfl⟩
+      · exact ⟨d, hex_sub d hd, rfl⟩
+    · rintro ⟨d, hd, rfl⟩
+      by_cases hm : d.num ∈ kd.map (·.num)
+      · obtain ⟨k, hk, he⟩ := List.mem_map.mp hm
+        have := nodup_num_inj t htn k d (hsub k hk) hd he
+        exact Or.inl ⟨d, this ▸ hk, rfl⟩
+      · exact Or.inr ⟨d, (mem_extras kd t d).mpr ⟨hd, hm⟩, rfl⟩
+
+/-! ## `mapE` -/
+
+/-- pointwise relation between two lists of the same length -/
+inductive All2 {α β} (R : α → β → Prop) : List α → List β → Prop
+  | nil : All2 R [] []
+  | cons {a b l1 l2} : R a b → All2 R l1 l2 → All2 R (a :: l1) (b :: l2)
+
+theorem All2.left {α β} {R : α → β → Prop} {l1 : List α} {l2 : List β} (h : All2 R l1 l2) :
+    ∀ a ∈ l1, ∃ b ∈ l2, R a b := by
+  induction h with
+  | nil => intro a ha; cases ha
+  | cons hab _ ih =>
+    intro x hx
+    rcases List.mem_cons.mp hx with rfl | hx
+    · exact ⟨_, List.mem_cons_self .., hab⟩
+    · obtain ⟨y, hy, hxy⟩ := ih x hx
+      exact ⟨y, List.mem_cons_of_mem _ hy, hxy⟩
+
+theorem All2.right {α β} {R : α → β → Prop} {l1 : List α} {l2 : List β} (h : All2 R l1 l2) :
+    ∀ b ∈ l2, ∃ a ∈ l1, R a b := by
+  induction h with
+  | nil => intro a ha; cases ha
+  | cons hab _ ih =>
+    intro x hx
+    rcases List.mem_cons.mp hx with rfl | hx
+    · exact ⟨_, List.mem_cons_self .., hab⟩
+    · obtain ⟨y, hy, hxy⟩ := ih x hx
+      exact ⟨y, List.mem_cons_of_mem _ hy, hxy⟩
+
+theorem mapE_eq_map {α β} (f : α → Except Err β) (g : α → β) :
+    ∀ l : List α, (∀ a ∈ l, f a = .ok (g a)) → mapE f l = .ok (l.map g) := by
+  intro l
+  induction l with
+  | nil => intro _; rfl
+  | cons a r ih =>
+    intro h
+    simp only [mapE, h a (List.mem_cons_self ..), bind_ok,
+      ih (fun x hx => h x (List.mem_cons_of_mem _ hx)), List.map_cons]
+
+theorem mapE_ok_forall {α β} (f : α → Except Err β) :
+    ∀ (l : List α) (bs : List β), mapE f l = .ok bs →
+      (∀ a ∈ l, ∃ b ∈ bs, f a = .ok b) ∧ (∀ b ∈ bs, ∃ a ∈ l, f a = .ok b) ∧
+      All2 (fun a b => f a = .ok b) l bs := by
+  intro l
+  induction l with
+  | nil =>
+    intro bs h
+    simp only [mapE, Except.ok.injEq] at h
+    subst h
+    exact ⟨by simp, by simp, .nil⟩
+  | cons a r ih =>
+    intro bs h
+    simp only [mapE] at h
+    cases hfa : f a with
+    | error e => simp [hfa] at h
+    | ok b =>
+      cases hr : mapE f r with
+      | error e => simp [hfa, hr] at h
+      | ok bs' =>
+        simp only [hfa, hr, bind_ok, Except.ok.injEq] at h
+        subst h
+        obtain ⟨h1, h2, h3⟩ := ih bs' hr
+        refine ⟨?_, ?_, .cons hfa h3⟩
+        · intro x hx
+          rcases List.mem_cons.mp hx with rfl | hx
+          · exact ⟨b, List.mem_cons_self .., hfa⟩
+          · obtain ⟨y, hy, hxy⟩ := h1 x hx
+            exact ⟨y, List.mem_cons_of_mem _ hy, hxy⟩
+        · intro y hy
+          rcases List.mem_cons.mp hy with rfl | hy
+          · exact ⟨a, List.mem_cons_self .., hfa⟩
+          · obtain ⟨x, hx, hxy⟩ := h2 y hy
+            exact ⟨x, List.mem_cons_of_mem _ hx, hxy⟩
+
+/-! ## `_largest_chord_kind_from_degrees` -/
+
+theorem kindStep_inv (T : List Kind) (degs : List Deg) (best : Option Nat × List Deg) (k : Kind)
+    (hk : k ∈ T)
+    (hb : ∀ a, best.1 = some a → ∃ k ∈ T, a = k.abbrev0 ∧ best.2 = k.degrees ∧ ∀ d ∈ k.degrees, d ∈ degs) :
+    ∀ a, (kindStep degs best k).1 = some a →
+      ∃ k' ∈ T, a = k'.abbrev0 ∧ (kindStep degs best k).2 = k'.degrees ∧ ∀ d ∈ k'.degrees, d ∈ degs := by
+  intro a
+  unfold kindStep
+  split
+  · exact hb a
+  · split
+    · rename_i hall
+      intro h
+      simp only [Option.some.injEq] at h
+      refine ⟨k, hk, h.symm, rfl, ?_⟩
+      intro d hd
+      have := List.all_eq_true.mp hall d hd
+      simpa using this
+    · exact hb a
+
+theorem foldl_kindStep_inv (T : List Kind) (degs : List Deg) :
+    ∀ (tbl : List Kind) (best : Option Nat × List Deg), (∀ k ∈ tbl, k ∈ T) →
+    (∀ a, best.1 = some a → ∃ k ∈ T, a = k.abbrev0 ∧ best.2 = k.degrees ∧ ∀ d ∈ k.degrees, d ∈ degs) →
+    ∀ a, (tbl.foldl (kindStep degs) best).1 = some a →
+      ∃ k ∈ T, a = k.abbrev0 ∧ ∀ d ∈ k.degrees, d ∈ degs := by
+  intro tbl
+  induction tbl with
+  | nil =>
+    intro best _ hb a h
+    obtain ⟨k, hk, h1, _, h3⟩ := hb a h
+    exact ⟨k, hk, h1, h3⟩
+  | cons k r ih =>
+    intro best hT hb a h
+    simp only [List.foldl_cons] at h
+    exact ih _ (fun x hx => hT x (List.mem_cons_of_mem _ hx))
+      (kindStep_inv T degs best k (hT k (List.mem_cons_self ..)) hb) a h
+
+/-- a kind the namer reports is in the table and all its degree names are among `degs` -/
+theorem largestKind_spec (degs : List Deg) (a : Nat) (h : largestKindFromDegrees degs = some a) :
+    ∃ k ∈ CHORD_KINDS, a = k.abbrev0 ∧ ∀ d ∈ k.degrees, d ∈ degs :=
+  foldl_kindStep_inv CHORD_KINDS degs CHORD_KINDS (none, []) (fun _ h => h)
+    (fun _ h => by simp at h) a h
+
+theorem foldl_kindStep_some (degs : List Deg) :
+    ∀ (tbl : List Kind) (best : Option Nat × List Deg), (best.2 ≠ [] → best.1 ≠ none) →
+    (best.1 ≠ none ∨ ∃ k ∈ tbl, k.degrees ≠ [] ∧ ∀ d ∈ k.degrees, d ∈ degs) →
+    (tbl.foldl (kindStep degs) best).1 ≠ none := by
+  intro tbl
+  induction tbl with
+  | nil =>
+    intro best _ h
+    rcases h with h | ⟨k, hk, _⟩
+    · exact h
+    · cases hk
+  | cons k0 r ih =>
+    intro best hJ h
+    simp only [List.foldl_cons]
+    apply ih
+    · unfold kindStep
+      split
+      · exact hJ
+      · split
+        · intro _; simp
+        · exact hJ
+    · by_cases hb : best.1 ≠ none
+      · left
+        unfold kindStep
+        split
+        · exact hb
+        · split
+          · simp
+          · exact hb
+      · rcases h with h | ⟨k, hk, hne, hsub⟩
+        · exact absurd h hb
+        · rcases List.mem_cons.mp hk with rfl | hk
+          · left
+            unfold kindStep
+            split
+            · rename_i hle
+              have : best.2 ≠ [] := by
+                intro he
+                rw [he] at hle
+                simp only [List.length_nil, Nat.le_zero_eq, List.length_eq_zero_iff] at hle
+                exact hne hle
+              exact hJ this
+            · split
+              · simp
+              · rename_i hall
+                exfalso
+                apply hall
+                apply List.all_eq_true.mpr
+                intro d hd
+                simpa using hsub d hd
+          · right
+            exact ⟨k, hk, hne, hsub⟩
+
+/-- when the unison is among `degs`, some kind is found (the pedal point `['1']`) -/
+theorem largestKind_some (degs : List Deg) (h1 : (⟨1, 0⟩ : Deg) ∈ degs) :
+    ∃ k ∈ CHORD_KINDS, largestKindFromDegrees degs = some k.abbrev0 ∧ ∀ d ∈ k.degrees, d ∈ degs := by
+  have hne : largestKindFromDegrees degs ≠ none := by
+    obtain ⟨k, hk, hd⟩ := ped_kind
+    apply foldl_kindStep_some degs CHORD_KINDS (none, []) (by simp)
+    right
+    refine ⟨k, hk, by simp [hd], ?_⟩
+    intro d hdk
+    rw [hd] at hdk
+    simp only [List.mem_singleton] at hdk
+    exact hdk ▸ h1
+  cases h : largestKindFromDegrees degs with
+  | none => exact absurd h hne
+  | some a =>
+    obtain ⟨k, hk, ha, hs⟩ := largestKind_spec degs a h
+    exact ⟨k, hk, by rw [ha], hs⟩
+
+/-! ## interpretations: `itertools.product` over the rows of `_SCALE_DEGREES` -/
+
+theorem All2.comp {α β γ} {R : α → β → Prop} {S : γ → β → Prop} {l1 : List α} {l2 : List β}
+    (A : All2 R l1 l2) : ∀ {l3 : List γ}, All2 S l3 l2 → All2 (fun a c => ∃ b, R a b ∧ S c b) l1 l3 := by
+  induction A with
+  | nil => intro l3 B; cases B; exact .nil
+  | cons hab _ ih =>
+    intro l3 B
+    cases B with
+    | cons hcb B' => exact .cons ⟨_, hab, hcb⟩ (ih B')
+
+theorem All2.imp {α β} {R S : α → β → Prop} {l1 : List α} {l2 : List β}
+    (h : ∀ a b, R a b → S a b) (A : All2 R l1 l2) : All2 S l1 l2 := by
+  induction A with
+  | nil => exact .nil
+  | cons hab _ ih => exact .cons (h _ _ hab) ih
+
+theorem mem_product {α} : ∀ (ls : List (List α)) (x : List α), x ∈ product ls → All2 (· ∈ ·) x ls := by
+  intro ls
+  induction ls with
+  | nil =>
+    intro x hx
+    simp only [product, List.mem_singleton] at hx
+    subst hx; exact .nil
+  | cons l ls ih =>
+    intro x hx
+    simp only [product, List.mem_flatMap, List.mem_map] at hx
+    obtain ⟨a, ha, y, hy, rfl⟩ := hx
+    exact .cons ha (ih y hy)
+
+/-- `d` is one of the names `_SCALE_DEGREES` lists for relative pitch `p` -/
+def NameAt (d : Deg) (p : Nat) : Prop := ∃ row, SCALE_DEGREES[p]? = some row ∧ d ∈ row
+
+theorem scaleDegreesAt_ok (p : Nat) (row : List Deg) :
+    scaleDegreesAt p = .ok row ↔ SCALE_DEGREES[p]? = some row := by
+  unfold scaleDegreesAt
+  split
+  · rename_i r hr; simp [hr]
+  · rename_i hr; simp [hr]
+
+theorem scaleDegreesAt_lt (p : Nat) (hp : p < 12) : ∃ row, scaleDegreesAt p = .ok row := by
+  have : p < SCALE_DEGREES.length := by rw [scale_rows_len]; exact hp
+  exact ⟨SCALE_DEGREES[p], (scaleDegreesAt_ok p _).mpr (List.getElem?_eq_getElem this)⟩
+
+theorem interp_of_product (rel : List Nat) (rows : List (List Deg)) (degs : List Deg)
+    (hr : mapE scaleDegreesAt rel = .ok rows) (hd : degs ∈ product rows) : All2 NameAt degs rel := by
+  have A := mem_product rows degs hd
+  have B := (mapE_ok_forall scaleDegreesAt rel rows hr).2.2
+  refine All2.imp ?_ (All2.comp A B)
+  rintro d p ⟨row, h1, h2⟩
+  exact ⟨row, (scaleDegreesAt_ok _ _).mp h2, h1⟩
+
+theorem nameAt_lt {d : Deg} {p : Nat} (h : NameAt d p) : p < 12 := by
+  obtain ⟨row, hr, _⟩ := h
+  have := (List.getElem?_eq_some_iff.mp hr).1
+  rw [scale_rows_len] at this; exact this
+
+theorem nameAt_pitch {d : Deg} {p : Nat} (h : NameAt d p) : namePitch d = some p := by
+  have hp := nameAt_lt h
+  obtain ⟨row, hr, hd⟩ := h
+  apply scale_rows_pitch p (List.mem_range.mpr hp) d
+  rw [hr]; exact hd
+
+theorem nameAt_emit {d : Deg} {p : Nat} (h : NameAt d p) : EmitOk d := by
+  obtain ⟨row, hr, hd⟩ := h
+  exact scale_rows_emit row (List.mem_of_getElem? hr) d hd
+
+theorem nameAt_zero {d : Deg} (h : NameAt d 0) : d = ⟨1, 0⟩ := by
+  obtain ⟨row, hr, hd⟩ := h
+  rw [row_zero] at hr
+  cases hr
+  simpa using hd
+
+/-- two names of one pitch row / one name in two rows: the row is determined by the name -/
+theorem nameAt_inj {d : Deg} {p q : Nat} (hp : NameAt d p) (hq : NameAt d q) : p = q := by
+  have := nameAt_pitch hp
+  rw [nameAt_pitch hq] at this
+  cases this; rfl
+
+/-! ## the loop over interpretations (`_largest_chord_kind_from_relative_pitches`) -/
+
+attribute [local irreducible] largestKindFromDegrees
+
+/-- invariant: a reported kind comes with the interpretation it was found for -/
+def InterpInv (A : List (List Deg)) (best : Option Nat × List Deg) : Prop :=
+  ∀ a, best.1 = some a →
+    best.2 ∈ A ∧ hasDup (best.2.map (·.num)) = false ∧ largestKindFromDegrees best.2 = some a
+
+theorem interpStep_inv (A : List (List Deg)) (best best' : Option Nat × List Deg) (degs : List Deg)
+    (hd : degs ∈ A) (hb : InterpInv A best) (h : interpStep best degs = .ok best') :
+    InterpInv A best' := by
+  unfold interpStep at h
+  split at h
+  · cases h; exact hb
+  · rename_i hdup
+    simp only [Bool.not_eq_true] at hdup
+    split at h
+    · cases h
+      intro a ha
+      exact ⟨hd, hdup, ha⟩
+    · cases hla : kindLenOpt (largestKindFromDegrees degs) with
+      | error e => simp [hla] at h
+      | ok la =>
+        rename_i b _
+        cases hlb : kindLen b with
+        | error e => simp [hla, hlb] at h
+        | ok lb =>
+          simp only [hla, hlb, bind_ok] at h
+          split at h
+          · cases h
+            intro a ha
+            exact ⟨hd, hdup, ha⟩
+          · cases h; exact hb
+
+theorem foldE_interp_inv (A : List (List Deg)) :
+    ∀ (L : List (List Deg)) (best res : Option Nat × List Deg), (∀ x ∈ L, x ∈ A) →
+      InterpInv A best → foldE interpStep best L = .ok res → InterpInv A res := by
+  intro L
+  induction L with
+  | nil => intro best res _ hb h; simp only [foldE, Except.ok.injEq] at h; exact h ▸ hb
+  | cons x r ih =>
+    intro best res hA hb h
+    simp only [foldE] at h
+    cases hs : interpStep best x with
+    | error e => simp [hs] at h
+    | ok best' =>
+      simp only [hs, bind_ok] at h
+      exact ih best' res (fun y hy => hA y (List.mem_cons_of_mem _ hy))
+        (interpStep_inv A best best' x (hA x (List.mem_cons_self ..)) hb hs) h
+
+/-- the kind in the loop state is one the table knows (so its length lookup cannot fail) -/
+def GoodBest (o : Option Nat) : Prop := ∀ b, o = some b → ∃ k ∈ CHORD_KINDS, b = k.abbrev0
+
+theorem kindLen_of_kind (k : Kind) (hk : k ∈ CHORD_KINDS) : kindLen k.abbrev0 = .ok k.degrees.length := by
+  unfold kindLen kindDegrees
+  rw [kinds_abbrev k hk]; rfl
+
+theorem interpStep_total (best : Option Nat × List Deg) (degs : List Deg) (hg : GoodBest best.1)
+    (hk : hasDup (degs.map (·.num)) = false →
+      ∃ k ∈ CHORD_KINDS, largestKindFromDegrees degs = some k.abbrev0) :
+    ∃ best', interpStep best degs = .ok best' ∧ GoodBest best'.1 ∧
+      (best'.1 = none ↔ best.1 = none ∧ hasDup (degs.map (·.num)) = true) := by
+  unfold interpStep
+  cases hdup : hasDup (degs.map (·.num)) with
+  | true => exact ⟨best, by simp, hg, by simp⟩
+  | false =>
+    obtain ⟨k, hkT, hka⟩ := hk hdup
+    simp only [Bool.false_eq_true, ↓reduceIte, hka]
+    cases hb : best.1 with
+    | none =>
+      refine ⟨(some k.abbrev0, degs), rfl, ?_, by simp⟩
+      intro b hb'; simp only [Option.some.injEq] at hb'; exact ⟨k, hkT, hb'.symm⟩
+    | some b =>
+      obtain ⟨kb, hkb, rfl⟩ := hg b hb
+      simp only [kindLenOpt, kindLen_of_kind k hkT, kindLen_of_kind kb hkb, bind_ok]
+      split
+      · refine ⟨_, rfl, ?_, by simp⟩
+        intro b hb'; simp only [Option.some.injEq] at hb'; exact ⟨k, hkT, hb'.symm⟩
+      · exact ⟨best, rfl, hg, by simp [hb]⟩
+
+theorem foldE_interp_total :
+    ∀ (L : List (List Deg)) (best : Option Nat × List Deg), GoodBest best.1 →
+      (∀ degs ∈ L, hasDup (degs.map (·.num)) = false →
+        ∃ k ∈ CHORD_KINDS, largestKindFromDegrees degs = some k.abbrev0) →
+      ∃ res, foldE interpStep best L = .ok res ∧ GoodBest res.1 ∧
+        (res.1 = none ↔ best.1 = none ∧ ∀ degs ∈ L, hasDup (degs.map (·.num)) = true) := by
+  intro L
+  induction L with
+  | nil => intro best hg _; exact ⟨best, rfl, hg, by simp⟩
+  | cons x r ih =>
+    intro best hg hk
+    obtain ⟨best', hs, hg', hiff⟩ := interpStep_total best x hg (hk x (List.mem_cons_self ..))
+    obtain ⟨res, hr, hgr, hiffr⟩ := ih best' hg' (fun d hd => hk d (List.mem_cons_of_mem _ hd))
+    refine ⟨res, by simp only [foldE, hs, bind_ok, hr], hgr, ?_⟩
+    rw [hiffr, hiff]
+    simp only [List.mem_cons, forall_eq_or_imp]
+    constructor
+    · rintro ⟨⟨h1, h2⟩, h3⟩; exact ⟨h1, h2, h3⟩
+    · rintro ⟨h1, h2, h3⟩; exact ⟨⟨h1, h2⟩, h3⟩
+
+theorem mapE_total {α β} (f : α → Except Err β) :
+    ∀ l : List α, (∀ a ∈ l, ∃ b, f a = .ok b) → ∃ bs, mapE f l = .ok bs := by
+  intro l
+  induction l with
+  | nil => intro _; exact ⟨[], rfl⟩
+  | cons a r ih =>
+    intro h
+    obtain ⟨b, hb⟩ := h a (List.mem_cons_self ..)
+    obtain ⟨bs, hbs⟩ := ih (fun x hx => h x (List.mem_cons_of_mem _ hx))
+    exact ⟨b :: bs, by simp only [mapE, hb, hbs, bind_ok]⟩
+
+/-- no interpretation of the relative pitches `rel` is free of repeated degree numbers -/
+def Unnameable (rel : List Nat) : Prop :=
+  ∀ rows, mapE scaleDegreesAt rel = .ok rows →
+    ∀ degs ∈ product rows, hasDup (degs.map (·.num)) = true
+
+/-- what a reported `(kind, interpretation)` satisfies for the relative pitches `rel` -/
+def RelCand (rel : List Nat) (a : Nat) (degs : List Deg) : Prop :=
+  All2 NameAt degs rel ∧ hasDup (degs.map (·.num)) = false ∧ largestKindFromDegrees degs = some a
+
+theorem largestFromRel_spec (rel : List Nat) (hlt : ∀ p ∈ rel, p < 12) (h0 : 0 ∈ rel) :
+    ∃ res, largestFromRel rel = .ok res ∧ GoodBest res.1 ∧
+      (res.1 = none ↔ Unnameable rel) ∧ (∀ a, res.1 = some a → RelCand rel a res.2) := by
+  obtain ⟨rows, hrows⟩ := mapE_total scaleDegreesAt rel (fun p hp => scaleDegreesAt_lt p (hlt p hp))
+  have hkind : ∀ degs ∈ product rows, hasDup (degs.map (·.num)) = false →
+      ∃ k ∈ CHORD_KINDS, largestKindFromDegrees degs = some k.abbrev0 := by
+    intro degs hd _
+    have A := interp_of_product rel rows degs hrows hd
+    obtain ⟨d, hdm, hd0⟩ := A.right 0 h0
+    have := nameAt_zero hd0
+    obtain ⟨k, hk, h1, _⟩ := largestKind_some degs (this ▸ hdm)
+    exact ⟨k, hk, h1⟩
+  obtain ⟨res, hres, hg, hiff⟩ := foldE_interp_total (product rows) (none, []) (by intro b hb; cases hb) hkind
+  have hinv := foldE_interp_inv (product rows) (product rows) (none, []) res (fun _ h => h)
+    (by intro a ha; cases ha) hres
+  refine ⟨res, ?_, hg, ?_, ?_⟩
+  · unfold largestFromRel
+    simp only [hrows, bind_ok, hres]
+  · rw [hiff]
+    constructor
+    · rintro ⟨_, h⟩ rows' hrows'
+      rw [hrows] at hrows'; cases hrows'; exact h
+    · intro h; exact ⟨rfl, h rows hrows⟩
+  · intro a ha
+    obtain ⟨h1, h2, h3⟩ := hinv a ha
+    exact ⟨interp_of_product rel rows res.2 hrows h1, h2, h3⟩
+
+/-! ## the loop over candidate roots -/
+
+abbrev RootBest := Option (Nat × Nat × List Deg)
+
+def GoodRoot (best : RootBest) : Prop :=
+  ∀ r b dg, best = some (r, b, dg) → ∃ k ∈ CHORD_KINDS, b = k.abbrev0
+
+theorem rootStep_total (best : RootBest) (c : Nat × List Nat) (hg : GoodRoot best)
+    (hlt : ∀ p ∈ c.2, p < 12) (h0 : 0 ∈ c.2) :
+    ∃ best', rootStep best c = .ok best' ∧ GoodRoot best' ∧
+      (best' = none ↔ best = none ∧ Unnameable c.2) ∧
+      (∀ r a degs, best' = some (r, a, degs) → best = some (r, a, degs) ∨ (c.1 = r ∧ RelCand c.2 a degs)) := by
+  obtain ⟨res, hres, hgb, hnone, hsome⟩ := largestFromRel_spec c.2 hlt h0
+  unfold rootStep
+  simp only [hres, bind_ok]
+  cases ha : res.1 with
+  | none =>
+    refine ⟨best, rfl, hg, ?_, fun r a degs h => Or.inl h⟩
+    have := hnone.mp ha
+    simp [this]
+  | some a =>
+    have hun : ¬ Unnameable c.2 := fun h => by rw [hnone.mpr h] at ha; cases ha
+    obtain ⟨k, hk, rfl⟩ := hgb a ha
+    have hc := hsome _ ha
+    cases hb : best with
+    | none =>
+      refine ⟨some (c.1, k.abbrev0, res.2), rfl, ?_, by simp [hun], ?_⟩
+      · intro r b dg h
+        simp only [Option.some.injEq, Prod.mk.injEq] at h
+        exact ⟨k, hk, h.2.1.symm⟩
+      · intro r a degs h
+        simp only [Option.some.injEq, Prod.mk.injEq] at h
+        obtain ⟨rfl, rfl, rfl⟩ := h
+        exact Or.inr ⟨rfl, hc⟩
+    | some t =>
+      obtain ⟨r0, b, dg0⟩ := t
+      obtain ⟨kb, hkb, rfl⟩ := hg r0 b dg0 hb
+      simp only [kindLen_of_kind k hk, kindLen_of_kind kb hkb, bind_ok]
+      split
+      · refine ⟨_, rfl, ?_, by simp, ?_⟩
+        · intro r b dg h
+          simp only [Option.some.injEq, Prod.mk.injEq] at h
+          exact ⟨k, hk, h.2.1.symm⟩
+        · intro r a degs h
+          simp only [Option.some.injEq, Prod.mk.injEq] at h
+          obtain ⟨rfl, rfl, rfl⟩ := h
+          exact Or.inr ⟨rfl, hc⟩
+      · refine ⟨_, rfl, ?_, by simp, fun r a degs h => Or.inl h⟩
+        intro r b dg h
+        exact hg r b dg (hb ▸ h)
+
+theorem foldE_root_total :
+    ∀ (cands : List (Nat × List Nat)) (best : RootBest), GoodRoot best →
+      (∀ c ∈ cands, (∀ p ∈ c.2, p < 12) ∧ 0 ∈ c.2) →
+      ∃ res, foldE rootStep best cands = .ok res ∧ GoodRoot res ∧
+        (res = none ↔ best = none ∧ ∀ c ∈ cands, Unnameable c.2) ∧
+        (∀ r a degs, res = some (r, a, degs) →
+          best = some (r, a, degs) ∨ ∃ c ∈ cands, c.1 = r ∧ RelCand c.2 a degs) := by
+  intro cands
+  induction cands with
+  | nil => intro best hg _; exact ⟨best, rfl, hg, by simp, fun r a degs h => Or.inl h⟩
+  | cons c r ih =>
+    intro best hg hc
+    obtain ⟨best', hs, hg', hiff, hsel⟩ :=
+      rootStep_total best c hg (hc c (List.mem_cons_self ..)).1 (hc c (List.mem_cons_self ..)).2
+    obtain ⟨res, hr, hgr, hiffr, hselr⟩ := ih best' hg' (fun d hd => hc d (List.mem_cons_of_mem _ hd))
+    refine ⟨res, by simp only [foldE, hs, bind_ok, hr], hgr, ?_, ?_⟩
+    · rw [hiffr, hiff]
+      simp only [List.mem_cons, forall_eq_or_imp]
+      constructor
+      · rintro ⟨⟨h1, h2⟩, h3⟩; exact ⟨h1, h2, h3⟩
+      · rintro ⟨h1, h2, h3⟩; exact ⟨⟨h1, h2⟩, h3⟩
+    · intro r0 a degs h
+      rcases hselr r0 a degs h with h | ⟨c', hc', h1, h2⟩
+      · rcases hsel r0 a degs h with h | ⟨h1, h2⟩
+        · exact Or.inl h
+        · exact Or.inr ⟨c, List.mem_cons_self .., h1, h2⟩
+      · exact Or.inr ⟨c', List.mem_cons_of_mem _ hc', h1, h2⟩
+
+/-! ## `len(l) > len(set(l))` -/
+
+theorem mem_dedup (l : List Nat) (x : Nat) : x ∈ dedup l ↔ x ∈ l := by
+  induction l with
+  | nil => simp [dedup]
+  | cons a r ih =>
+    simp only [dedup]
+    split
+    · rename_i h
+      simp only [List.mem_cons, ih]
+      constructor
+      · exact Or.inr
+      · rintro (rfl | h')
+        · exact ih.mp h
+        · exact h'
+    · simp only [List.mem_cons, ih]
+
+theorem dedup_length_le (l : List Nat) : (dedup l).length ≤ l.length := by
+  induction l with
+  | nil => simp [dedup]
+  | cons a r ih =>
+    simp only [dedup]
+    split
+    · simp only [List.length_cons]; omega
+    · simp only [List.length_cons]; omega
+
+theorem nodup_of_hasDup_false (l : List Nat) (h : hasDup l = false) : l.Nodup := by
+  induction l with
+  | nil => exact List.nodup_nil
+  | cons a r ih =>
+    unfold hasDup at h ih
+    simp only [decide_eq_false_iff_not, Nat.not_lt] at h ih
+    simp only [dedup] at h
+    have hle := dedup_length_le r
+    split at h
+    · simp only [List.length_cons] at h; omega
+    · rename_i hm
+      simp only [List.length_cons] at h
+      rw [List.nodup_cons]
+      exact ⟨fun hx => hm ((mem_dedup r a).mpr hx), ih (by omega)⟩
+
+/-! ## one candidate `(root, kind, interpretation)`: the name denotes the pitches -/
+
+theorem notBassDegree_iff (row : List Deg) (d : Deg) : notBassDegree row d = true ↔ d ∉ row := by
+  unfold notBassDegree
+  simp only [List.all_eq_true, decide_eq_true_eq]
+  constructor
+  · intro h hm; exact h d hm rfl
+  · intro h b hb he; exact h (he ▸ hb)
+
+theorem spell_spec (r : Nat) (hr : r < 12) :
+    ∃ sp, spellFromC r = .ok sp ∧ pitchClassToMidi sp = .ok r := by
+  have := spell_ok r (List.mem_range.mpr hr)
+  cases h : spellFromC r with
+  | error e => rw [h] at this; cases this
+  | ok sp => rw [h] at this; exact ⟨sp, rfl, this⟩
+
+theorem degreePitch_name (rp : Nat) (d : Deg) (p : Nat) (h : namePitch d = some p) :
+    degreePitch rp (pair d) = .ok ((rp + p) % 12) := by
+  unfold namePitch at h
+  cases hd : dget DEGREE_OFFSETS (normDegree d.num) with
+  | none => simp [hd] at h
+  | some off =>
+    simp only [hd, Option.map_some, Option.some.injEq] at h
+    unfold degreePitch lookupK pair
+    simp only [hd, bind_ok, Except.ok.injEq]
+    unfold pymod12 at *
+    omega
+
+theorem candidate_aux (bass r a : Nat) (degs : List Deg) (rel : List Nat) (hb : bass < 12)
+    (hr : r < 12) (hc : RelCand rel a degs) :
+    ∃ s ps, buildSymbol bass r a degs = .ok s ∧ chordSymbolPitches s = .ok ps ∧
+      chordSymbolRoot s = .ok r ∧ chordSymbolBass s = .ok bass ∧
+      ∀ x, (x ∈ ps ∨ x = bass) ↔ (x = bass ∨ ∃ p ∈ rel, x = (r + p) % 12) := by
+  obtain ⟨hA, hdup, hk⟩ := hc
+  obtain ⟨k, hkT, rfl, hsub⟩ := largestKind_spec degs a hk
+  have hkd := kinds_abbrev k hkT
+  have hkn := kinds_nodup k hkT
+  have hdn : (degs.map (·.num)).Nodup := nodup_of_hasDup_false _ hdup
+  have hpb : pymod12 ((bass : Int) - r) < 12 := by unfold pymod12; omega
+  obtain ⟨brow, hbrow⟩ := scaleDegreesAt_lt _ hpb
+  have hbrow' := (scaleDegreesAt_ok _ _).mp hbrow
+  -- the target after the bass filter
+  generalize ht : (if k.degrees.all (notBassDegree brow) then degs.filter (notBassDegree brow) else degs) = t
+  have ht_sub : ∀ d ∈ t, d ∈ degs := by
+    intro d hd; rw [← ht] at hd
+    split at hd
+    · exact (List.mem_filter.mp hd).1
+    · exact hd
+  have htn : (t.map (·.num)).Nodup := by
+    rw [← ht]
+    split
+    · exact List.Nodup.sublist (List.Sublist.map _ List.filter_sublist) hdn
+    · exact hdn
+  have hkt : ∀ d ∈ k.degrees, d ∈ t := by
+    intro d hd; rw [← ht]
+    split
+    · rename_i hall
+      exact List.mem_filter.mpr ⟨hsub d hd, List.all_eq_true.mp hall d hd⟩
+    · exact hsub d hd
+  have hemit : ∀ d ∈ t, EmitOk d := by
+    intro d hd
+    obtain ⟨p, _, hp⟩ := hA.left d (ht_sub d hd)
+    exact nameAt_emit hp
+  obtain ⟨mods, ms, hmods, hms, happ, hset⟩ := mods_rebuild_aux k.degrees t hkn htn hkt hemit
+  obtain ⟨sp, hsp, hspm⟩ := spell_spec r hr
+  obtain ⟨bsp, hbsp, hbspm⟩ := spell_spec bass hb
+  -- the symbol
+  have hbuild : buildSymbol bass r k.abbrev0 degs =
+      .ok ⟨sp.1, sp.2, k.abbrev0, mods, if bass = r then none else some bsp⟩ := by
+    unfold buildSymbol kindDegrees
+    simp only [hsp, hkd, hbrow, bind_ok, ht, hmods]
+    split
+    · rfl
+    · simp only [hbsp, bind_ok]
+  generalize hs : (⟨sp.1, sp.2, k.abbrev0, mods, if bass = r then none else some bsp⟩ : Symbol) = s
+    at hbuild
+  have hsplit : splitMods s = .ok ms := by
+    rw [← hs]; unfold splitMods; simp only [hkd, hms]
+  have hparse : parseChordSymbol s =
+      .ok (sp, k.degrees.map pair ++ (extras k.degrees t).map pair, s.bass.getD sp) := by
+    unfold parseChordSymbol
+    rw [hsplit]
+    rw [← hs]
+    simp only [bind_ok, hkd, pure, Except.pure, happ]
+  -- pitches
+  have hD : ∀ e ∈ k.degrees.map pair ++ (extras k.degrees t).map pair,
+      ∃ x, degreePitch r e = .ok x := by
+    intro e he
+    obtain ⟨d, hd, rfl⟩ := (hset e).mp he
+    obtain ⟨p, _, hp⟩ := hA.left d (ht_sub d hd)
+    exact ⟨_, degreePitch_name r d p (nameAt_pitch hp)⟩
+  obtain ⟨ps, hps⟩ := mapE_total (degreePitch r) _ hD
+  obtain ⟨hps1, hps2, _⟩ := mapE_ok_forall _ _ _ hps
+  refine ⟨s, ps, hbuild, ?_, ?_, ?_, ?_⟩
+  · unfold chordSymbolPitches
+    simp only [hparse, bind_ok, hspm, hps]
+  · unfold chordSymbolRoot
+    rw [hsplit, ← hs]; simp only [bind_ok]; exact hspm
+  · unfold chordSymbolBass
+    rw [hsplit, ← hs]; simp only [bind_ok]
+    split
+    · rename_i he; simp only [Option.getD_none]; rw [he]; exact hspm
+    · simp only [Option.getD_some]; exact hbspm
+  · -- the set denoted
+    have hmem : ∀ x, x ∈ ps ↔ ∃ d ∈ t, ∃ p ∈ rel, NameAt d p ∧ x = (r + p) % 12 := by
+      intro x
+      constructor
+      · intro hx
+        obtain ⟨e, he, hex⟩ := hps2 x hx
+        obtain ⟨d, hd, rfl⟩ := (hset e).mp he
+        obtain ⟨p, hpr, hp⟩ := hA.left d (ht_sub d hd)
+        rw [degreePitch_name r d p (nameAt_pitch hp)] at hex
+        cases hex
+        exact ⟨d, hd, p, hpr, hp, rfl⟩
+      · rintro ⟨d, hd, p, _, hp, rfl⟩
+        obtain ⟨x, hx, hex⟩ := hps1 (pair d) ((hset _).mpr ⟨d, hd, rfl⟩)
+        rw [degreePitch_name r d p (nameAt_pitch hp)] at hex
+        cases hex
+        exact hx
+    have hbass_eq : (r + pymod12 ((bass : Int) - r)) % 12 = bass := by unfold pymod12; omega
+    intro x
+    rw [hmem]
+    constructor
+    · rintro (⟨d, _, p, hp, _, rfl⟩ | h)
+      · exact Or.inr ⟨p, hp, rfl⟩
+      · exact Or.inl h
+    · rintro (h | ⟨p, hp, rfl⟩)
+      · exact Or.inr h
+      · by_cases hpb' : p = pymod12 ((bass : Int) - r)
+        · right; rw [hpb']; exact hbass_eq
+        · left
+          obtain ⟨d, hd, hdp⟩ := hA.right p hp
+          refine ⟨d, ?_, p, hp, hdp, rfl⟩
+          rw [← ht]
+          split
+          · apply List.mem_filter.mpr ⟨hd, ?_⟩
+            rw [notBassDegree_iff]
+            intro hin
+            exact hpb' (nameAt_inj hdp ⟨brow, hbrow', hin⟩)
+          · exact hd
+
 end NSV.C15
